@@ -191,7 +191,7 @@ fn batch(inp: &str, out: &str) {
 /// n threads released from one barrier; thread i converts the whole corpus starting at a
 /// different position, so that the very first (table-initialising) calls race and every
 /// thread sees a different history.
-fn threads(n: usize, inp: &str, out: &str) {
+fn threads(n: usize, inp: &str, out: &str, same_start: bool) {
     install_panic_hook();
     let reqs = Arc::new(read_requests(inp));
     let w = Arc::new(Mutex::new(BufWriter::new(
@@ -209,7 +209,9 @@ fn threads(n: usize, inp: &str, out: &str) {
                 .spawn(move || {
                     svgbob::verif::set_thread_tag(t as u64 + 1);
                     let len = reqs.len();
-                    let start = if n > 0 { t * len / n } else { 0 };
+                    // either every thread starts with the same request (the very first calls race on
+                    // the same tables) or each starts at a different position
+                    let start = if same_start || n == 0 { 0 } else { t * len / n };
                     let mut lines = Vec::with_capacity(len);
                     barrier.wait();
                     for k in 0..len {
@@ -249,9 +251,12 @@ fn main() {
     let args: Vec<String> = std::env::args().collect();
     match args.get(1).map(|s| s.as_str()) {
         Some("batch") if args.len() == 4 => batch(&args[2], &args[3]),
-        Some("threads") if args.len() == 5 => {
-            threads(args[2].parse().expect("thread count"), &args[3], &args[4])
-        }
+        Some("threads") if args.len() == 5 || args.len() == 6 => threads(
+            args[2].parse().expect("thread count"),
+            &args[3],
+            &args[4],
+            args.get(5).map(|s| s == "same").unwrap_or(false),
+        ),
         Some("tables") if args.len() == 3 => tables(&args[2]),
         _ => {
             eprintln!("usage: bobdrive batch <in> <out> | threads <n> <in> <out> | tables <out>");
